@@ -68,6 +68,14 @@ CLAIMED = {
     text="Proof, PARTIAL by nature: theorems about an interleaving model (one atomic shared access per step: lock acquire/release, one attribute load/store, one deque operation, one pipe send/recv, one send()) for EVERY schedule, any number of publisher threads and messages: packet ids handed to different (thread, message) pairs are distinct (mutual exclusion on the id lock; also C14's thread clause); wire ++ in-hand ++ queue is always an order-preserving interleaving of the publishers' packets, each exactly once when drained; no lost wake-up (a queued packet is written without consuming a select() timeout); CONNECT is the first packet on every connection for every schedule of reconnect vs publishers; the loop thread has no failing step; no packet is dropped unmarked; deadlock freedom from an acyclic held-while-acquiring relation, instantiated on the lock graph generated from client.py. What the model cannot exhibit - CPython's real preemption inside C-level operations (GIL atomicity of single container operations is assumed), loop_stop()/info.rc/_inflight_messages races - is explored on the real code by a controlled scheduler (sys.monitoring line/instruction switching points, cooperative locks, fake select/pipe): exhaustive up to a preemption bound and seeded random/PCT schedules, every run replayable. Open finding F-C07f.",
     ref="4.7", technique="Coq proof over an interleaving model for all schedules + controlled-scheduler exploration of the real client (exploration validates the model and searches failing schedules; it is not part of the proof)",
     note="Trusted/assumed: Coq kernel; GIL atomicity of one deque operation / attribute access / pipe operation; whole-packet writes (C06); the lock-graph translator; the scheduler harness. The exploration part is bounded (preemption bound 2-3) and labelled as exploration in the evidence."),
+ "C10": dict(
+    text="Proof: executable model of the connection state machine (state, socket, write registration, output queue, in-callback flag, CONNECT-queued flag) with nested API calls of any depth inside every callback; for all operation lists (API calls, every inbound packet kind incl. refused CONNACK / v5 DISCONNECT / unknown packets, read and write failures, partial and blocked writes, keepalive expiry, reconnects), all callback configurations and protocol versions: is_connected() implies an open socket on which an accepting CONNACK was processed; every connection end that is not a replacement has exactly one on_disconnect, with client-generated result success iff disconnect() was called; per socket the first packet is CONNECT, exactly one CONNECT, nothing after DISCONNECT. Hypotheses are syntactic exclusions matching the open findings F-C10h/i/k (connection calls from the socket teardown/open callbacks); the full statements are refuted by witnesses.",
+    ref="4.10", technique="Coq proof: invariants of a connection-state model over all operation lists with nested callback scripts; extracted trace checkers as oracle; differential execution (events + state after every operation)",
+    note="Trusted: Coq kernel, extraction+driver, harness. Callbacks do not raise; no background thread (C07); keepalive expiry is an input (C08 owns timing); partial write abstracted to 'all but the last byte' (C06 owns byte-level writes)."),
+ "C16": dict(
+    text="Proof on the same connection model, socket callbacks installed: on_socket_open/close strictly alternate with the same socket object on every error path; register/unregister-write alternate and lie inside that socket's open/close; whenever an operation returns with an open socket and unsent data a write registration is outstanding (external-loop mode). For all operation lists and nested scripts except reconnect() from the socket teardown callbacks (open finding F-C16a; full statements refuted by witness).",
+    ref="4.16", technique="Coq proof: alternation/nesting invariants over all operation lists with nested callback scripts; extracted checkers; differential execution",
+    note="As C10. The no-lost-wake-up clause in direct-write mode is covered by the correspondence only (the registration flag is internal there)."),
 }
 PENDING = {}
 for i in range(1, 21):
